@@ -7,7 +7,8 @@ def tooBig (n r p keyLen : Int) : Bool :=
   validate n r p keyLen == .accept &&
     (128 * r * n > 2 ^ 26 || p * 128 * r > 2 ^ 20 || p * r * n > 2 ^ 18 || keyLen > 2 ^ 16)
 
-/-- `key pw=<hex> salt=<hex> N=<int> r=<int> p=<int> keyLen=<int>` → `ok <hex>` | `err` | `panic` -/
+/-- `key pw=<hex> salt=<hex> N=<int> r=<int> p=<int> keyLen=<int> [want=<hex>]` → `ok <hex>` | `err` | `panic`;
+    with `want` (a published vector) a different key is `kat-mismatch <hex>` on both sides -/
 def handle (line : String) : String :=
   let o := parseOp line
   if o.cmd != "key" then "bad-op" else
@@ -19,8 +20,10 @@ def handle (line : String) : String :=
     | .panic => "panic"
     | .ok k =>
       -- the flat-memory model (L1) must agree with the block-level model (L2, proved = RFC 7914)
-      if scryptSpec false pw salt n.toNat r.toNat p.toNat keyLen.toNat == some k then s!"ok {toHex k}"
-      else "model-split"
+      if scryptSpec false pw salt n.toNat r.toNat p.toNat keyLen.toNat != some k then "model-split"
+      else match o.get? "want" with
+        | none => s!"ok {toHex k}"
+        | some w => if ofHex w == some k then s!"ok {toHex k}" else s!"kat-mismatch {toHex k}"
   | _, _, _, _, _, _ => "bad-op"
 
 end XC.C16
